@@ -370,6 +370,19 @@ func boolOrErrEdges(s Site, obj types.Object, isErr bool) (a, b map[Edge]bool) {
 			if assignsTo(info, b0.Nodes[i], obj) {
 				return // overwritten before being tested on this path
 			}
+			if y := copiedInto(info, b0.Nodes[i], obj); y != nil && y != obj {
+				// the value moves to another variable (y := obj): tests of y are tests of this value
+				a2, b2 := boolOrErrEdges(Site{F: s.F, P: Point{b0, i}, Node: b0.Nodes[i]}, y, isErr)
+				for e := range a2 {
+					a[e] = true
+				}
+				for e := range b2 {
+					b[e] = true
+				}
+				if len(a2)+len(b2) > 0 {
+					return
+				}
+			}
 		}
 		if c := Cond(b0); c != nil && usesObj(info, c, obj) {
 			for k := 0; k < 2; k++ {
@@ -407,6 +420,45 @@ func boolOrErrEdges(s Site, obj types.Object, isErr bool) (a, b map[Edge]bool) {
 }
 
 // ---------------------------------------------------------------------------
+
+// copiedInto: node n is an assignment (or declaration) that copies the plain
+// variable obj into another local variable, which is returned.
+func copiedInto(info *types.Info, n ast.Node, obj types.Object) types.Object {
+	var lhs, rhs []ast.Expr
+	switch x := n.(type) {
+	case *ast.AssignStmt:
+		if x.Tok != token.ASSIGN && x.Tok != token.DEFINE {
+			return nil
+		}
+		lhs, rhs = x.Lhs, x.Rhs
+	case *ast.DeclStmt:
+		gd, ok := x.Decl.(*ast.GenDecl)
+		if !ok || len(gd.Specs) != 1 {
+			return nil
+		}
+		vs, ok := gd.Specs[0].(*ast.ValueSpec)
+		if !ok {
+			return nil
+		}
+		for _, nm := range vs.Names {
+			lhs = append(lhs, nm)
+		}
+		rhs = vs.Values
+	default:
+		return nil
+	}
+	if len(lhs) != len(rhs) {
+		return nil
+	}
+	for i := range rhs {
+		if id, ok := ast.Unparen(rhs[i]).(*ast.Ident); ok && info.Uses[id] == obj {
+			if y := objOf(info, lhs[i]); y != nil && isLocal(y) {
+				return y
+			}
+		}
+	}
+	return nil
+}
 
 // fmtErrorfWraps reports whether call is fmt.Errorf / the package's fmtErrorf
 // whose arguments include (for a %w verb) an expression accepted by isWrapped.
